@@ -322,6 +322,14 @@ class RustOracle:
                 return "LSPObject"
             if got and got in self.structs and self.literal_matches(self.structs[got], props, locus):
                 self.used_literal_structs.add(got)
+                # the struct of a literal is held to what holds for the struct of a structure: field types, Option, gates
+                done = self.__dict__.setdefault("_checked_literal_structs", set())
+                if got not in done:
+                    done.add(got)
+                    self.check_fields(got, self.structs[got], props, locus + "|")
+                    self.evaluations += 1
+                    if has_gate(self.structs[got].attrs) != bool(t["value"].get("proposed")):
+                        self.fail("feature-gate", got, f"literal struct gated={has_gate(self.structs[got].attrs)}, proposed={bool(t['value'].get('proposed'))}")
                 return got
             return f"<struct for literal at {locus}>"
         raise HarnessError(f"rust oracle: unmapped type kind {k}")
